@@ -398,6 +398,7 @@ func (self *AofFile) ReadLockData(lock *AofLock) error {
 	aofLockData := make([]byte, dataLen+4)
 	aofLockData[0], aofLockData[1], aofLockData[2], aofLockData[3] = buf[0], buf[1], buf[2], buf[3]
 	if dataLen <= 0 {
+		self.dataSize += 4
 		lock.data = aofLockData
 		return nil
 	}
@@ -413,6 +414,7 @@ func (self *AofFile) ReadLockData(lock *AofLock) error {
 		}
 		n += nn
 	}
+	self.dataSize += 4 + dataLen
 	lock.data = aofLockData
 	return nil
 }
@@ -1179,6 +1181,7 @@ func (self *Aof) Init() ([16]byte, error) {
 			return [16]byte{}, perr
 		}
 		self.aofFileIndex = uint32(aofFileIndex)
+		self.repairAofFileTail(fmt.Sprintf("%s.%d", "append.aof", self.aofFileIndex))
 		aofLock, err = self.LoadFileMaxAofLock(fmt.Sprintf("%s.%d", "append.aof", self.aofFileIndex))
 		if err != nil {
 			if err != io.EOF {
@@ -1226,6 +1229,7 @@ func (self *Aof) LoadAndInit() error {
 			return perr
 		}
 		self.aofFileIndex = uint32(aofFileIndex)
+		self.repairAofFileTail(appendFiles[len(appendFiles)-1])
 	} else {
 		self.aofFileIndex = 1
 	}
@@ -1275,6 +1279,9 @@ func (self *Aof) Load() error {
 	if err != nil {
 		return err
 	}
+	if len(appendFiles) > 0 {
+		self.repairAofFileTail(appendFiles[len(appendFiles)-1])
+	}
 	aofFilenames := make([]string, 0)
 	if rewriteFile != "" {
 		aofFilenames = append(aofFilenames, rewriteFile)
@@ -1306,6 +1313,39 @@ func (self *Aof) Load() error {
 	}
 	self.slock.Log().Infof("Aof load finish")
 	return nil
+}
+
+// repairAofFileTail cuts the newest append file and its value file back to the last complete
+// record. A crash can leave a torn record, or a record whose value never reached the value file,
+// at the end; loading stops there, and whatever is appended after such a tail could not be read
+// back by the next start.
+func (self *Aof) repairAofFileTail(filename string) {
+	path := filepath.Join(self.dataDir, filename)
+	size, dataSize := 0, 0
+	aofFile := NewAofFile(self, path, os.O_RDONLY, int(Config.AofFileBufferSize))
+	err := aofFile.Open()
+	if err == nil {
+		size = aofFile.size
+		lock := NewAofLock()
+		for aofFile.ReadLock(lock) == nil && lock.Decode() == nil {
+			if lock.AofFlag&AOF_FLAG_CONTAINS_DATA != 0 && aofFile.ReadLockData(lock) != nil {
+				break
+			}
+			size, dataSize = aofFile.size, aofFile.dataSize
+		}
+		_ = aofFile.Close()
+	} else if err != io.EOF {
+		return
+	}
+	if fileinfo, serr := os.Stat(path); serr == nil && fileinfo.Size() > int64(size) {
+		self.slock.Log().Warnf("Aof file %s has an incomplete tail, truncate %d to %d", filename, fileinfo.Size(), size)
+		_ = os.Truncate(path, int64(size))
+	}
+	dataPath := fmt.Sprintf("%s.%s", path, "dat")
+	if fileinfo, serr := os.Stat(dataPath); serr == nil && fileinfo.Size() > int64(dataSize) {
+		self.slock.Log().Warnf("Aof file %s.dat has an incomplete tail, truncate %d to %d", filename, fileinfo.Size(), dataSize)
+		_ = os.Truncate(dataPath, int64(dataSize))
+	}
 }
 
 func (self *Aof) LoadMaxAofId() ([16]byte, error) {
